@@ -4,6 +4,7 @@ package main
 
 import (
 	"fmt"
+	"math/bits"
 	"os"
 	"sort"
 	"strings"
@@ -80,6 +81,9 @@ type pathState struct {
 	sample  map[string]interface{}
 	sampleCand *Candidate
 	conc    map[int]uint64 // term ID -> value fixed by an earlier split on this path
+	condVal map[int]bool   // Bool term ID -> outcome decided earlier on this path
+	asserted []*Term       // permanent constraints of this path (for the fallback solver)
+	fallback **Solver      // the worker's lazily started second solver
 }
 
 type HarnessStats struct {
@@ -97,6 +101,8 @@ type HarnessStats struct {
 	EngineErrors []string
 	BoundNotes   []string
 	InconNotes   []string
+	FallbackQueries int
+	FallbackDecided int
 	WallS        float64
 	Inputs       map[string]int // symbolic input names -> width
 }
@@ -172,6 +178,12 @@ func (ex *Explorer) worker(id int) {
 		return
 	}
 	defer solver.Close()
+	var fallback *Solver
+	defer func() {
+		if fallback != nil {
+			fallback.Close()
+		}
+	}()
 	for {
 		ex.mu.Lock()
 		for len(ex.stack) == 0 && ex.active > 0 && !ex.stopped {
@@ -200,7 +212,7 @@ func (ex *Explorer) worker(id int) {
 				return
 			}
 		}
-		ps, out, msg, funcs := ex.runPath(prefix, solver)
+		ps, out, msg, funcs := ex.runPath(prefix, solver, &fallback)
 
 		ex.mu.Lock()
 		ex.active--
@@ -318,6 +330,151 @@ func (i *interpreter) assertPC(t *Term) {
 	}
 	i.ps.solver.Assert(i.tb, t)
 	i.ps.pcSize++
+	i.ps.asserted = append(i.ps.asserted, t)
+	refine(t, true)
+}
+
+// refine narrows the static interval of terms that the (now permanent) path
+// constraint c == val bounds, and pushes the bound down to the terms it was
+// built from.  Sound because the path condition only ever grows along a path
+// and the term bank lives for one path; terms built later see the narrower
+// ranges, which lets comparisons fold without a query.
+func refine(c *Term, val bool) {
+	switch c.Op {
+	case OpBNot:
+		refine(c.Args[0], !val)
+	case OpBAnd:
+		if val {
+			refine(c.Args[0], true)
+			refine(c.Args[1], true)
+		}
+	case OpBOr:
+		if !val {
+			refine(c.Args[0], false)
+			refine(c.Args[1], false)
+		}
+	case OpEq:
+		a, b := c.Args[0], c.Args[1]
+		if val && a.W > 0 && a.W <= 64 {
+			if b.Op == OpConst {
+				narrow(a, b.A, b.A)
+			} else if a.Op == OpConst {
+				narrow(b, a.A, a.A)
+			}
+		}
+	case OpUlt, OpUle:
+		a, b := c.Args[0], c.Args[1]
+		if a.W == 0 || a.W > 64 {
+			return
+		}
+		m := mask(a.W)
+		strict := c.Op == OpUlt
+		switch {
+		case b.Op == OpConst && a.Op != OpConst:
+			// a < k / a <= k
+			k := b.A
+			if val {
+				if strict {
+					if k == 0 {
+						return
+					}
+					k--
+				}
+				narrow(a, 0, k)
+			} else {
+				// a >= k / a > k
+				if !strict {
+					if k == m {
+						return
+					}
+					k++
+				}
+				narrow(a, k, m)
+			}
+		case a.Op == OpConst && b.Op != OpConst:
+			// k < b / k <= b
+			k := a.A
+			if val {
+				if strict {
+					if k == m {
+						return
+					}
+					k++
+				}
+				narrow(b, k, m)
+			} else {
+				// b <= k / b < k
+				if !strict {
+					if k == 0 {
+						return
+					}
+					k--
+				}
+				narrow(b, 0, k)
+			}
+		}
+	}
+}
+
+// narrow intersects t's interval with [lo,hi] and propagates the upper bound
+// through operations whose operands cannot exceed the result.
+func narrow(t *Term, lo, hi uint64) {
+	for depth := 0; depth < 24; depth++ {
+		if t.Op == OpConst || t.W == 0 || t.W > 64 {
+			return
+		}
+		changed := false
+		if lo > t.Lo && lo <= t.Hi {
+			t.Lo = lo
+			changed = true
+		}
+		if hi < t.Hi && hi >= t.Lo {
+			t.Hi = hi
+			changed = true
+		}
+		if !changed {
+			return
+		}
+		m := mask(t.W)
+		if t.Hi < m {
+			if lz := bits.LeadingZeros64(t.Hi); lz > 0 {
+				t.K0 |= ^(^uint64(0) >> uint(lz))
+			}
+		}
+		// only the upper bound is pushed further down
+		lo = 0
+		switch t.Op {
+		case OpSlice:
+			base := t.Args[0]
+			sl, n, sh := uint(t.A), int(t.B), uint(t.C)
+			if int(sl)+n < effWidth(base) {
+				return // the slice hides upper bits of the base
+			}
+			// value = (base >> sl) << sh, so base>>sl <= Hi>>sh
+			top := t.Hi >> sh
+			if top >= mask(64-int(sl)) {
+				return
+			}
+			hi = ((top + 1) << sl) - 1
+			t = base
+		case OpOr:
+			// both operands are <= the result
+			narrow(t.Args[1], 0, t.Hi)
+			hi = t.Hi
+			t = t.Args[0]
+		case OpAdd:
+			// x + c without wrap-around: x <= Hi - c
+			a, b := t.Args[0], t.Args[1]
+			if b.Op == OpConst && a.Hi <= m-b.A && t.Hi >= b.A {
+				hi = t.Hi - b.A
+				t = a
+			} else {
+				return
+			}
+		default:
+			return
+		}
+	}
 }
 
 // decide resolves a symbolic condition to a concrete branch direction.
@@ -325,6 +482,19 @@ func (i *interpreter) decide(cond *Term, label string) bool {
 	if cond.Op == OpBConst {
 		return cond.A != 0
 	}
+	ps := i.ps
+	// a condition already decided on this path (or computable from learnt facts)
+	// needs neither a query nor a decision record; this is deterministic, so
+	// re-executions stay aligned
+	if v, ok := ps.knownCond(cond); ok {
+		return v
+	}
+	res := i.decideSlow(cond, label)
+	ps.condVal[cond.ID] = res
+	return res
+}
+
+func (i *interpreter) decideSlow(cond *Term, label string) bool {
 	ps := i.ps
 	tb := i.tb
 	if ps.pos < len(ps.prefix) {
@@ -347,13 +517,13 @@ func (i *interpreter) decide(cond *Term, label string) bool {
 	if ps.ex.profile {
 		ps.ex.noteSite(i, "br")
 	}
-	rT, _ := ps.solver.Check(tb, []*Term{cond}, nil)
+	rT, _ := ps.check(tb, []*Term{cond}, nil)
 	ps.queries++
 	if rT == Unsat {
 		ps.record(Decision{Kind: "br", B: false, Forced: true})
 		return false
 	}
-	rF, _ := ps.solver.Check(tb, []*Term{tb.BNot(cond)}, nil)
+	rF, _ := ps.check(tb, []*Term{tb.BNot(cond)}, nil)
 	ps.queries++
 	if rF == Unsat {
 		if rT == Unknown {
@@ -433,7 +603,7 @@ func (i *interpreter) concretize(v symInt, label string) value {
 	// need a model value for v.T: bind it to a fresh variable
 	probe := tb.Var(fmt.Sprintf("vp!probe%d", len(tb.terms)), w)
 	extra = append(extra, tb.Cmp(OpEq, probe, v.T))
-	res, model := ps.solver.Check(tb, extra, []*Term{probe})
+	res, model := ps.check(tb, extra, []*Term{probe})
 	ps.queries++
 	if res == Unsat {
 		panic(pathInfeasible{})
@@ -447,7 +617,7 @@ func (i *interpreter) concretize(v symInt, label string) value {
 	nx := append(append([]uint64(nil), excl...), val)
 	// is there any further value?  (one query now saves a whole re-execution)
 	more := append(append([]*Term(nil), extra[:len(extra)-1]...), tb.BNot(tb.Cmp(OpEq, v.T, tb.Const(w, val))))
-	r2, _ := ps.solver.Check(tb, more, nil)
+	r2, _ := ps.check(tb, more, nil)
 	ps.queries++
 	if r2 != Unsat {
 		if ps.ex.profile {
@@ -499,11 +669,11 @@ func (i *interpreter) model(extra []*Term) (Result, map[string]uint64) {
 	ps := i.ps
 	vars := ps.inputs
 	if len(vars) == 0 {
-		r, _ := ps.solver.Check(i.tb, extra, nil)
+		r, _ := ps.check(i.tb, extra, nil)
 		ps.queries++
 		return r, map[string]uint64{}
 	}
-	r, m := ps.solver.Check(i.tb, extra, vars)
+	r, m := ps.check(i.tb, extra, vars)
 	ps.queries++
 	return r, m
 }
@@ -542,7 +712,7 @@ func (i *interpreter) checkAssert(c value, label string) {
 			ps.cands = append(ps.cands, Candidate{Harness: ps.ex.harness, Kind: "assert", Label: label, Values: m,
 				Choices: append([]uint64(nil), ps.choices...), Notes: append([]string(nil), ps.notes...)})
 			// continue under the assumption that the assertion held
-			rr, _ := ps.solver.Check(i.tb, []*Term{x.T}, nil)
+			rr, _ := ps.check(i.tb, []*Term{x.T}, nil)
 			ps.queries++
 			if rr == Unsat {
 				panic(pathAbort{OutAborted, "assertion fails on every input of this path: " + label})
@@ -565,7 +735,7 @@ func (i *interpreter) checkAssume(c value) {
 			panic(pathInfeasible{})
 		}
 	case symBool:
-		r, _ := i.ps.solver.Check(i.tb, []*Term{x.T}, nil)
+		r, _ := i.ps.check(i.tb, []*Term{x.T}, nil)
 		i.ps.queries++
 		if r == Unsat {
 			panic(pathInfeasible{})
@@ -628,6 +798,13 @@ func (ps *pathState) learn(t *Term, v uint64) {
 			}
 		case OpZExt:
 			if v <= mask(t.Args[0].W) {
+				t = t.Args[0]
+				continue
+			}
+		case OpSlice:
+			// an invertible slice: it shows every bit the base can have
+			if t.A == 0 && int(t.B) >= effWidth(t.Args[0]) {
+				v >>= t.C
 				t = t.Args[0]
 				continue
 			}
@@ -706,6 +883,8 @@ func (ps *pathState) eval(t *Term, depth int) (uint64, bool) {
 		r = a % b
 	case OpZExt:
 		r = a
+	case OpSlice:
+		r = ((a >> t.A) & mask(int(t.B))) << t.C
 	case OpExtract:
 		r = a >> t.B
 	case OpNot:
@@ -716,4 +895,93 @@ func (ps *pathState) eval(t *Term, depth int) (uint64, bool) {
 	r &= m
 	ps.conc[t.ID] = r
 	return r, true
+}
+
+// knownCond reports the truth value of a condition if it was decided before on
+// this path or follows from learnt values.
+func (ps *pathState) knownCond(c *Term) (bool, bool) {
+	if v, ok := ps.condVal[c.ID]; ok {
+		return v, true
+	}
+	switch c.Op {
+	case OpBNot:
+		if v, ok := ps.knownCond(c.Args[0]); ok {
+			return !v, true
+		}
+	case OpEq, OpUlt, OpUle, OpSlt, OpSle:
+		a, b := c.Args[0], c.Args[1]
+		if a.W == 0 || a.W > 64 || len(ps.conc) == 0 {
+			return false, false
+		}
+		x, ok1 := ps.eval(a, 0)
+		y, ok2 := ps.eval(b, 0)
+		if !ok1 || !ok2 {
+			return false, false
+		}
+		switch c.Op {
+		case OpEq:
+			return x == y, true
+		case OpUlt:
+			return x < y, true
+		case OpUle:
+			return x <= y, true
+		case OpSlt:
+			return sext64(x, a.W) < sext64(y, a.W), true
+		case OpSle:
+			return sext64(x, a.W) <= sext64(y, a.W), true
+		}
+	}
+	return false, false
+}
+
+// fallbackFor names the solver a query is retried on when the primary one
+// answers unknown (bit-blasting and integer encodings fail on different queries).
+func fallbackFor(name string) string {
+	switch name {
+	case "z3":
+		return "cvc5-int"
+	case "cvc5-int", "cvc5":
+		return "z3"
+	case "z3-new":
+		return "cvc5-int"
+	}
+	return ""
+}
+
+// check decides sat(PC and extra) on the worker's solver; an unknown verdict is
+// retried once on the fallback solver in a fresh session holding the same
+// permanent constraints.
+func (ps *pathState) check(tb *TermBank, extra []*Term, vars []*Term) (Result, map[string]uint64) {
+	r, m := ps.solver.Check(tb, extra, vars)
+	if r != Unknown || ps.fallback == nil {
+		return r, m
+	}
+	fbName := fallbackFor(ps.solver.name)
+	if fbName == "" {
+		return r, m
+	}
+	if *ps.fallback == nil || (*ps.fallback).dead {
+		fb, err := NewSolver(fbName, ps.ex.timeoutMs)
+		if err != nil {
+			return r, m
+		}
+		*ps.fallback = fb
+	}
+	fb := *ps.fallback
+	fb.Reset()
+	for _, a := range ps.asserted {
+		fb.Assert(tb, a)
+	}
+	r2, m2 := fb.Check(tb, extra, vars)
+	ps.ex.mu.Lock()
+	ps.ex.stats.FallbackQueries++
+	if r2 != Unknown {
+		ps.ex.stats.FallbackDecided++
+	}
+	ps.ex.mu.Unlock()
+	if r2 != Unknown {
+		// the primary solver counted this query as unknown; it is decided after all
+		return r2, m2
+	}
+	return r, m
 }
